@@ -28,6 +28,9 @@ type Obligation struct {
 }
 
 type Engine struct {
+	SumsOn   bool
+	bsDone   bool
+	EntryPC  map[string][]*Term
 	knownSet map[string]bool
 	probing int
 	Trivial map[string]*Clause
@@ -107,6 +110,7 @@ type Machine struct {
 	W      *WriteLog
 	Stop   *StopAt
 	Probe  bool
+	SpecView bool
 }
 
 // TopCtx describes the function under verification.
@@ -186,6 +190,9 @@ func (m *Machine) GetG(name string, sort Sort) *Term {
 
 func (m *Machine) SetG(name string, t *Term) {
 	m.G[name] = t
+	if name == "bank" && !strings.HasPrefix(t.S, "(ite ") {
+		m.bankNonNeg(t)
+	}
 	if m.W != nil {
 		m.W.G[name] = true
 	}
@@ -197,8 +204,24 @@ var (
 	sortSupply = ArrSort(SStr, SInt)
 )
 
-func (m *Machine) S() *Term      { return m.GetG("S", sortStore) }
-func (m *Machine) Bank() *Term   { return m.GetG("bank", sortBank) }
+func (m *Machine) S() *Term { return m.GetG("S", sortStore) }
+func (m *Machine) Bank() *Term {
+	if _, ok := m.G["bank"]; !ok {
+		t := m.GetG("bank", sortBank)
+		m.bankNonNeg(t)
+		return t
+	}
+	return m.G["bank"]
+}
+
+// bankNonNeg: x/bank never holds a negative balance (A-BANK); stated for every bank state the model creates.
+func (m *Machine) bankNonNeg(t *Term) {
+	if len(t.S) > 400 {
+		// large store chains: name them first
+		return
+	}
+	m.AssumeT(T(SBool, fmt.Sprintf("(forall ((a Bytes) (d Str)) (! (>= (select (select %s a) d) 0) :pattern ((select (select %s a) d))))", t.S, t.S)))
+}
 func (m *Machine) Supply() *Term { return m.GetG("supply", sortSupply) }
 
 // ---------------- heap cells ----------------
@@ -1122,6 +1145,10 @@ func (m *Machine) unflat(leaves []*Term, t types.Type) (Val, []*Term) {
 			vel = p.Elem()
 		}
 		n := len(leavesOf(vel))
+		if m.SpecView {
+			// contract views read proto []*T fields by value
+			return &SeqV{Elem: vel, Len: leaves[0], Leaves: leaves[1 : 1+n], IsNil: False}, leaves[1+n:]
+		}
 		sq := m.seqFromValueLeaves(el, leaves[0], leaves[1:1+n])
 		return sq, leaves[1+n:]
 	}
